@@ -158,12 +158,47 @@ pub fn check(sc: &Scenario, ex: &mut Exec) -> (Verdict, Option<String>) {
         plans.push((format!("z+{}", z), base.clone().with_agg_z(z).with_thr_z(z)));
         plans.push((format!("z-{}", z), base.clone().with_agg_z(-z).with_thr_z(-z)));
     }
+    // steps that are small against the clamp range of every noised column: a column derived from
+    // several clamped cells (variance) can read the same at both clamp ends
+    let scan = crate::ir::scan(&compiled.dp);
+    let zmin = scan
+        .noise_maps
+        .iter()
+        .flat_map(|m| m.cols.iter())
+        .filter(|c| c.sigma > 0.0 && c.sigma.is_finite())
+        .filter_map(|c| c.clamp.map(|(lo, hi)| (hi - lo) / (8.0 * c.sigma)))
+        .filter(|z| *z > 0.0)
+        .fold(f64::INFINITY, f64::min);
+    if zmin.is_finite() && zmin < 0.5 {
+        for z in [zmin, zmin / 16.0] {
+            plans.push((format!("z+{:e}", z), base.clone().with_agg_z(z).with_thr_z(z)));
+            plans.push((format!("z-{:e}", z), base.clone().with_agg_z(-z).with_thr_z(-z)));
+        }
+    }
+    // one noise site at a time: a derived column clamped at zero (variance) may move only when
+    // its inputs move apart
+    for m in &scan.noise_maps {
+        for c in &m.cols {
+            if c.sigma > 0.0 {
+                let small = c.clamp.map(|(lo, hi)| (hi - lo) / (8.0 * c.sigma)).filter(|z| *z > 0.0 && *z < 1.0);
+                for z in [Some(1.0), small].into_iter().flatten() {
+                    plans.push((format!("site{}+{:e}", c.u1_site, z), base.clone().with_site_z(c.u1_site, c.u2_site, z)));
+                    plans.push((format!("site{}-{:e}", c.u1_site, z), base.clone().with_site_z(c.u1_site, c.u2_site, -z)));
+                }
+            }
+        }
+    }
     plans.push(("release_all".into(), base.clone().release_all()));
     plans.push(("release_none".into(), base.clone().release_none()));
     let mut on_d: Vec<ResultSet> = vec![];
     for (name, p) in &plans {
         match ex.query(&mut eng, &format!("dp_D_{}", name), &dp_sql, p) {
-            Ok((rs, _)) => on_d.push(rs),
+            Ok((rs, _)) => {
+                if std::env::var("VERIF_DEBUG").is_ok() {
+                    eprintln!("plan {} -> {:?}", name, rs.rows);
+                }
+                on_d.push(rs)
+            }
             Err(e) => return (Verdict::Skip(format!("engine_gap_dp:{}", short(&e))), None),
         }
     }
@@ -190,6 +225,9 @@ pub fn check(sc: &Scenario, ex: &mut Exec) -> (Verdict, Option<String>) {
         for pi in &coupled {
             match ex.query(&mut eng2, &format!("dp_D_minus_u_{}", plans[*pi].0), &dp_sql, &plans[*pi].1) {
                 Ok((rs, _)) => {
+                    if std::env::var("VERIF_DEBUG").is_ok() {
+                        eprintln!("minus {} plan {} -> {:?}", u, plans[*pi].0, rs.rows);
+                    }
                     for i in 0..ncols {
                         if !data_dep[i] && column_multiset(&rs, i) != column_multiset(&on_d[*pi], i) {
                             data_dep[i] = true;
